@@ -328,3 +328,44 @@ def _f20_region(inputs, outcome):
 
 
 fault_enumeration.known_regions["F20"] = _f20_region
+
+
+# ---- C03 / C16: chunks larger than any internal codec buffer ---------------------------------------------------------
+def _big_native(i):
+    strax = _strax()
+    be = strax.FileSytemBackend()
+    d = tempfile.mkdtemp(dir=_ROOT)
+    dirname = os.path.join(d, "r0-things-abc")
+    n = i["rows"]
+    data = np.zeros(n, dtype=INTERVAL_DT)
+    data["time"] = np.arange(n) * 10
+    data["endtime"] = data["time"] + 3
+    for name in data.dtype.names:
+        if name not in ("time", "endtime"):
+            data[name] = (np.arange(n) * 7919) % 100003            # hard to compress: the compressed chunk is large too
+    chunk = strax.Chunk(start=0, end=int(n * 10), data=data, data_type="things", data_kind="things", dtype=data.dtype, run_id="r0",
+                        target_size_mb=500)
+    try:
+        md = metadata("intervals", i["compressor"])
+        md["chunk_target_size_mb"] = 500
+        saver = be.saver(dirname, md)
+        saver.save_from(iter([chunk]), rechunk=False)
+        loaded = list(be.loader(dirname, executor=None))
+        out = np.concatenate([c.data for c in loaded])
+        return dict(same=(out.dtype == data.dtype and out.tobytes() == data.tobytes()), n_out=int(len(out)), nbytes=int(data.nbytes))
+    except Exception as ex:  # noqa
+        return dict(same=False, n_out=-1, nbytes=int(data.nbytes), error=f"{type(ex).__name__}: {str(ex)[:120]}")
+    finally:
+        shutil.rmtree(d, ignore_errors=True)
+
+
+big_round_trip = Contract(
+    FC, "Saver.save_from+StorageBackend.loader (large chunk)", params=dict(rows="int", compressor="V"),
+    ensures=lambda S, a, r: [("a multi-megabyte chunk loads bit-identically (" + str(r.get("error", "")) + ")", r["same"] and r["n_out"] == a.rows)],
+    raises={},
+    harness=Harness(native=_big_native,
+                    gen=lambda rng, tier: (dict(rows=n, compressor=c) for c in ("blosc", "zstd", "lz4", "bz2")
+                                           for n in ((150_000,) if tier == "quick" else (150_000, 3_000_000))),
+                    scope="one chunk of 150 000 rows (about 3.6 MB; thorough: also 3 000 000 rows, about 72 MB, beyond the 64 MB decompression "
+                          "buffer) x 4 compressors through the real FileSytemBackend",
+                    nontrivial=lambda i: True))
